@@ -191,11 +191,23 @@ def scan_overview(root):
     from codelimit.common.Configuration import Configuration
     from codelimit.common.Scanner import scan_codebase
 
+    from codelimit.common.report.Report import Report
+
     Configuration.verbose = True
     Configuration.exclude = []
+    root = Path(root)
+    copy = root / "copy_of_a.js"
+    if copy.exists():
+        copy.unlink()
+    with contextlib.redirect_stdout(io.StringIO()):
+        first = scan_codebase(root)
+    # a byte-identical copy of the Python file under a JavaScript name appears, and the tree is scanned again with the first
+    # report as cache: the rows of Python and C are what they were (the copy is a JavaScript file, whatever it holds)
+    copy.write_bytes((root / FILES[1][0]).read_bytes())
     buf = io.StringIO()
     with contextlib.redirect_stdout(buf):
-        scan_codebase(Path(root))
+        scan_codebase(root, Report(first))
+    copy.unlink()
     rows = {}
     for ln in buf.getvalue().splitlines():
         parts = [x for x in re.split(r"\s{2,}", ln.strip()) if x]
